@@ -314,7 +314,7 @@ class MassFunction(transfer.Transfer):
     @cached_quantity
     def m(self):
         """Halo masses (defined via ``mdef``)."""
-        return 10 ** np.arange(self.Mmin, self.Mmax, self.dlog10m)
+        return 10.0 ** np.arange(self.Mmin, self.Mmax, self.dlog10m)
 
     @cached_quantity
     def _unn_sigma0(self):
